@@ -27,7 +27,7 @@ import multiprocessing
 import os
 import sys
 
-from irlib import AnalysisBroken, tyname, demangle1
+from irlib import AnalysisBroken, tyname, demangle1, V
 from lin import Lin
 from absval import PtrVal, IntVal, NULL, mk_const, State
 from absint import Interp, ext_new
@@ -102,6 +102,25 @@ class LifeInterp(Interp):
                 b.pint is not None and a.pint.is_null and b.pint.is_null:
             return mk_const(inst.bits, 0)
         return Interp.binop(self, st, op, a, b, inst)
+
+    def do_gep(self, st, base, gep, fn):
+        """nullptr + 0 is nullptr (begin()/end() of a vector without a block); the engine maps every arithmetic on
+        a null base to an unknown pointer"""
+        if isinstance(base, PtrVal) and base.is_null:
+            total = 0
+            for s in gep['steps']:
+                if s['k'] == 'field':
+                    total += s['off']
+                else:
+                    iv = self.val(st, V(s['v']), fn)
+                    c = iv.sconst() if isinstance(iv, IntVal) else None
+                    if c is None:
+                        total = None
+                        break
+                    total += c * s['stride']
+            if total == 0:
+                return NULL
+        return Interp.do_gep(self, st, base, gep, fn)
 
 
 class Tracker:
